@@ -19,7 +19,7 @@ checks = {
  "C10": dict(engine="E1", cat="exploration", ref="§3 C10", technique="deterministic simulation: bracket automaton over the event history of every invocation kind + bubble quiescence for Done()-waiters",
              text="A bracket automaton is fed the global event sequence of failing, minimizing, persisting Checks (hundreds of invocations of all ten kinds, cut by the clock; plus Generator.Example on retried Custom generators and MakeFuzz on arbitrary bytes): context live and unique during the call, cancelled before any cleanup, cleanups exactly once and LIFO incl. ones registered during cleanup and after panics, everything closed before the next invocation; goroutines parked on Done() must all be released (synctest quiescence)."),
  "C02": dict(engine="E1", cat="exploration", ref="§3 C02", technique="deterministic simulation: enumerated kind x context x position matrix of failure signals inside simulated Check histories; conservation oracle",
-             text="The finite matrix (16 failure kinds incl. empty-message Error()/Errorf(\"\") x 8 callback contexts in which a *T is available x 9 positions of the falsifying case within the run incl. 'signal, then a Skip raised from a cleanup' and 'only in the first replay of an existing fail file' = 890 cells) is enumerated cell by cell over run indices, each followed by 0-3 later statements (Custom draws, filters that give up, state machines, cleanups) that must not un-signal it; every fourth run is a generated program under the same oracle; around each cell seed, checks, steps and clock are sampled; conservation oracle: a recorded failure signal on any *T rapid handed out implies the TB is failed (and FailNow) when Check returns; skips and passes alone never fail it. 12% of the 'first-case'/'every-case' cells are run as fuzz targets instead (MakeFuzz on a real sub-test with arbitrary bytes): a signal in the executed case must fail the enclosing test."),
+             text="The finite matrix (16 failure kinds incl. empty-message Error()/Errorf(\"\") x 8 callback contexts in which a *T is available x 10 positions of the falsifying case within the run incl. 'signal, then a Skip raised from a cleanup', 'signal from a cleanup function that runs after a later-registered cleanup skipped' and 'only in the first replay of an existing fail file' = 938 cells) is enumerated cell by cell over run indices, each followed by 0-3 later statements (Custom draws, filters that give up, state machines, cleanups) that must not un-signal it; every fourth run is a generated program under the same oracle; around each cell seed, checks, steps and clock are sampled; conservation oracle: a recorded failure signal on any *T rapid handed out implies the TB is failed (and FailNow) when Check returns; skips and passes alone never fail it. 12% of the 'first-case'/'every-case' cells are run as fuzz targets instead (MakeFuzz on a real sub-test with arbitrary bytes): a signal in the executed case must fail the enclosing test."),
  "C04": dict(engine="E1", cat="exploration", ref="§3 C04", technique="deterministic simulation: multi-phase process histories (warm-ups, same seed twice, record -> prune -> replay, fail -> restart -> replay, raw recording via MakeFuzz, cold OS process vs warm) with draw-log equivalence oracles",
              text="Replay-equivalence over histories: same seed twice in different bubbles; reproduction = failing case; any two invocations started from identical words behave identically; the presented case (replay of the pruned recording) draws what the last recording run drew minus rejected attempts; restart over the same directory replays the same values; the unpruned recording through MakeFuzz reproduces the recorded run; every run starts from recreated process-wide caches, so its warm history is exactly the warm-ups on its tape, and the same tape in a fresh OS process (cold) must give the same history (look-alike regexps probe cache keying); a sampled run that behaves differently in the warm worker than in two agreeing fresh processes is reported as process-history dependence with an index-range replay."),
  "C06": dict(engine="E1", cat="exploration", ref="§3 C06", technique="deterministic simulation: two-run history fail -> restart -> rerun on a real scratch FS with hostile names/outputs, clock jumps within and between runs",
